@@ -271,6 +271,79 @@ class KDTreeModel(Stub):
         self._asked()
         return [other._near(p, r) for p in self.points]
 
+    def sparse_distance_matrix(self, other, max_distance, p=2.0, output_type="dok_matrix", *a, **k):
+        """every (i, j) with |x_i - y_j| <= max_distance and its distance, both orders and i == j for the tree with itself; a
+        distance of exactly 0 is a stored entry like any other"""
+        if not isinstance(other, KDTreeModel) or not isinstance(max_distance, (int, float)) or isinstance(max_distance, bool) or p != 2.0:
+            raise NotConst("KD-tree sparse distance matrix")
+        self.log.append(float(max_distance))
+        self._asked()
+        ent = []
+        for i, x in enumerate(self.points):
+            for j in other._near(x, max_distance):
+                ent.append((IdxS(i), j, _norm(x - other.points[j])))
+        return SparseS(ent, (len(self.points), len(other.points)))
+
+
+class SparseS(Stub):
+    """scipy.sparse matrix as far as a neighbour search uses it: stored entries (row, column, value); explicit zeros are entries"""
+
+    def __init__(self, entries, shape):
+        self.entries = list(entries)
+        self.shape = shape
+
+    row = property(lambda self: [e[0] for e in self.entries])
+    col = property(lambda self: [e[1] for e in self.entries])
+    data = property(lambda self: [e[2] for e in self.entries])
+    nnz = property(lambda self: len(self.entries))
+
+    def keys(self):
+        return [(e[0], e[1]) for e in self.entries]
+
+    def values(self):
+        return [e[2] for e in self.entries]
+
+    def items(self):
+        return [((e[0], e[1]), e[2]) for e in self.entries]
+
+    def __iter__(self):
+        return iter(self.keys())
+
+    def __len__(self):
+        return len(self.entries)
+
+    def __getitem__(self, ij):
+        for e in self.entries:
+            if (e[0], e[1]) == tuple(ij):
+                return e[2]
+        return 0.0
+
+    def nonzero(self):
+        nz = [e for e in self.entries if e[2] != 0]
+        return ([e[0] for e in nz], [e[1] for e in nz])
+
+    def tocoo(self, *a, **k):
+        return self
+
+    todok = tocsr = tocsc = tocoo
+
+
+def _sparse_tri(upper: bool):
+    def tri(m, k=0, *a, **kw):
+        if not isinstance(m, SparseS):
+            raise NotConst("triu / tril of a value that is not a sparse matrix stub")
+        return SparseS([e for e in m.entries if ((e[1] - e[0] >= k) if upper else (e[1] - e[0] <= k))], m.shape)
+
+    return tri
+
+
+def _sparse_find(m):
+    """scipy.sparse.find: row indices, column indices and values of the NON-ZERO entries"""
+    if not isinstance(m, SparseS):
+        raise NotConst("find of a value that is not a sparse matrix stub")
+    nz = [e for e in m.entries if e[2] != 0]
+    return ([e[0] for e in nz], [e[1] for e in nz], [e[2] for e in nz])
+
 
 _serial = itertools.count(1)
 
@@ -789,6 +862,7 @@ def stdlib(repo, module) -> Dict[str, Any]:
         "heapq": ns(nlargest=heapq.nlargest, nsmallest=heapq.nsmallest),
         "collections": ns(defaultdict=BASE["defaultdict"], OrderedDict=dict, namedtuple=_namedtuple_factory(repo, module)),
         "pathlib": ns(Path=PathS, PurePath=PathS),
+        "scipy.sparse": ns(find=_sparse_find, triu=_sparse_tri(True), tril=_sparse_tri(False)),
     }
 
 
@@ -1330,6 +1404,8 @@ def build_structure(radii: Dict[str, float], extra: float) -> List[Cluster]:
                 for occ in OCC:
                     for d, cell in (dd[0], dd[2]):
                         cl.append(Cluster(len(cl), t, t, d, cell, same_res, na, nb, same_name, occ, "F"))
+    # two atoms at the very same position (superposed copies, alternate conformers sharing a position): distance exactly 0
+    cl.append(Cluster(len(cl), t, t, 0.0, "exactly 0 (coincident atoms)", False, True, True, False, "half+half", "T"))
     # different residues that agree on chain / number / insertion code: still two residues
     for twin in TWINS:
         for same_name in (True, False):
@@ -1560,7 +1636,9 @@ class ClashEval:
             if isinstance(item, PairIdx):
                 ij = (int(item[0]), int(item[1]))
                 break
-            if isinstance(item, tuple) and len(item) == 2 and all(_isidx(x) for x in item) and any(isinstance(x, IdxS) for x in item):
+            if isinstance(item, tuple) and len(item) == 2 and isinstance(item[0], tuple) and not isinstance(item[0], PairIdx):
+                item = item[0] + (item[1],)  # ((i, j), distance) of a sparse matrix's items()
+            if isinstance(item, tuple) and len(item) in (2, 3) and all(_isidx(x) for x in item[:2]) and any(isinstance(x, IdxS) for x in item[:2]) and (len(item) == 2 or isinstance(item[2], float)):
                 ij = (int(item[0]), int(item[1]))
                 break
             if isinstance(item, IdxS):
@@ -1710,6 +1788,20 @@ def check_find_clashes(chk, fi, radii: Dict[str, float], extra: float) -> Option
     dev = ce.deviations()
     o = lambda opts, **kw: all(opts[k] == v for k, v in kw.items())
 
+    seen_pairs: Dict[Tuple, set] = {}
+
+    def examined(key) -> set:
+        """clusters whose pair met at least one traced condition in the run with these options"""
+        if not seen_pairs:
+            for node, recs in ce.trace.values():
+                for tag, ctx, _ in recs:
+                    if tag and tag[0] == "big":
+                        pr = ce._pair_of(tag, ctx)
+                        if pr is not None and pr[0] is not None and pr[0].cluster is not None and pr[1] is not None and pr[0].cluster is pr[1].cluster and pr[0] is not pr[1]:
+                            seen_pairs.setdefault(tag[-1], set()).add(pr[0].cluster.idx)
+            seen_pairs.setdefault(None, set())
+        return seen_pairs.get(key, set())
+
     def say(d) -> str:
         opts, c, want = d
         thr = radii.get(c.ta, 0) + radii.get(c.tb, 0) + (extra if opts["enable_molprobity_mode"] else 0.0) if c.ta in radii and c.tb in radii else None
@@ -1722,6 +1814,9 @@ def check_find_clashes(chk, fi, radii: Dict[str, float], extra: float) -> Option
                 if pts_ is not None and not any(atom_ is x for x in pts_) and not gone:
                     last_ = ce.trace.last.get((tag_, atom_.k))
                     gone = f"; atom {atom_.name} (occupancy {atom_.occupancy}) is never put into the KD-tree" + (f": dropped at line {getattr(last_[0], 'lineno', '?')} where `{norm(last_[0])[:60]}` is {last_[1]}" if last_ else "")
+        if want and not gone and c.idx not in examined(tuple(opts[k] for k in OPTIONS)):
+            q_ = ce.query_stmts[0] if ce.query_stmts else None
+            gone = "; both atoms are in the KD-tree but the pair never reaches a filter: the candidate enumeration" + (f" (line {q_.lineno}: `{norm(q_)[:90]}`)" if q_ is not None else "") + " does not yield it"
         reach = f"; the KD-tree search radius {R[0]:.2f} A does not reach it" if want and len(set(R)) == 1 and c.dist > R[0] else ""
         return f"with {optstr(opts)} the pair [{c.describe()}] is {'not listed but is a clash' if want else 'listed but is not a clash'} by the definition" + (f" (threshold {thr:.2f} A{reach}{gone})" if thr is not None else gone)
 
